@@ -137,3 +137,6 @@ Proof.
 Qed.
 
 End RingCount.
+
+Lemma step_other_threads_gen N s t u : u <> t -> thr (stepZ N s t) u = thr s u.
+Proof. apply step_other_threads. Qed.
